@@ -11,6 +11,8 @@ package main
 //   B<k>                             start goroutine k in the background (it may block on a chunk mutex)
 //   G<k>                             start goroutine k and hold it inside its next GetChunk (gated store); D<k> lets the call return
 //   DA                               wait until the preload workers are finished
+//   K                                the cache file is unlinked under the running loader
+//   Y:<K|A|R<n>>:<m|l>               a start-up that fails: its init state file is missing (m) or of the wrong length (l)
 //   X:<state 0|1|2>:<K|A|R<n>>:<preload 0|1>   restart: state file readable (1), hidden (0) or replaced by a foreign one of
 //                                              the wrong length (2); cache kept/absent/resized; preload
 // Predicate (independent of the model): a ReadAt that reports success returns exactly blob[off:off+n] with
@@ -88,6 +90,9 @@ type c10Run struct {
 	hung        bool
 	bootHold    func(bool)
 	gated       int // 1+goroutine held inside GetChunk by the store's gate
+	unlinked    bool   // the cache file has been unlinked under the running loader
+	down        bool   // the last start-up returned an error: nothing is served until the next start
+	staleClass  string // how the state file became stale (names the failure class)
 	preloadWant int // store calls expected once the preload workers are finished
 	abandoned   map[int]bool
 }
@@ -96,7 +101,7 @@ var errC10EIO = errors.New("EIO")
 
 // start creates the loader: directly, or (kind "mount") behind the FUSE file node driven through the raw bridge
 func (x *c10Run) start(opt desync.SparseFileOptions) error {
-	if x.c.Kind != "mount" {
+	if !strings.HasPrefix(x.c.Kind, "mount") {
 		sf, err := desync.NewSparseFile(x.cache, x.idx, x.st, opt)
 		x.sf = sf
 		return err
@@ -115,7 +120,7 @@ func (x *c10Run) start(opt desync.SparseFileOptions) error {
 }
 
 func (x *c10Run) writeState() error {
-	if x.c.Kind == "mount" {
+	if strings.HasPrefix(x.c.Kind, "mount") {
 		return x.mfs.WriteState()
 	}
 	return x.sf.WriteState()
@@ -123,36 +128,19 @@ func (x *c10Run) writeState() error {
 
 // readAt is ReadAt on goroutine k's handle; through the mount it is the node's Read (EOF is folded into a short answer there)
 func (x *c10Run) readAt(k int, buf []byte, off int64) (int, error) {
-	if x.c.Kind != "mount" {
+	if err := x.open(k); err != nil {
+		return 0, err
+	}
+	if !strings.HasPrefix(x.c.Kind, "mount") {
 		x.mu.Lock()
 		h := x.handles[k]
 		x.mu.Unlock()
-		if h == nil {
-			var err error
-			if h, err = x.sf.Open(); err != nil {
-				return 0, err
-			}
-			x.mu.Lock()
-			x.handles[k] = h
-			x.mu.Unlock()
-		}
 		return h.ReadAt(buf, off)
 	}
-	cancel := make(chan struct{})
 	x.mu.Lock()
-	fh, ok := x.fhs[k]
+	fh := x.fhs[k]
 	x.mu.Unlock()
-	if !ok {
-		var oo fuse.OpenOut
-		if s := x.raw.Open(cancel, &fuse.OpenIn{InHeader: fuse.InHeader{NodeId: x.node}}, &oo); s != fuse.OK {
-			return 0, fmt.Errorf("Open = %v", s)
-		}
-		fh = oo.Fh
-		x.mu.Lock()
-		x.fhs[k] = fh
-		x.mu.Unlock()
-	}
-	rr, s := x.raw.Read(cancel, &fuse.ReadIn{InHeader: fuse.InHeader{NodeId: x.node}, Fh: fh, Offset: uint64(off), Size: uint32(len(buf))}, buf)
+	rr, s := x.raw.Read(make(chan struct{}), &fuse.ReadIn{InHeader: fuse.InHeader{NodeId: x.node}, Fh: fh, Offset: uint64(off), Size: uint32(len(buf))}, buf)
 	if s != fuse.OK {
 		return 0, errC10EIO
 	}
@@ -162,6 +150,30 @@ func (x *c10Run) readAt(k int, buf []byte, off int64) (int, error) {
 		return n, io.EOF
 	}
 	return n, nil
+}
+
+// open gives goroutine k its handle (SparseFile.Open, or the mount node's Open) if it has none yet
+func (x *c10Run) open(k int) error {
+	x.mu.Lock()
+	defer x.mu.Unlock()
+	if !strings.HasPrefix(x.c.Kind, "mount") {
+		if x.handles[k] == nil {
+			h, err := x.sf.Open()
+			if err != nil {
+				return err
+			}
+			x.handles[k] = h
+		}
+		return nil
+	}
+	if _, ok := x.fhs[k]; !ok {
+		var oo fuse.OpenOut
+		if s := x.raw.Open(make(chan struct{}), &fuse.OpenIn{InHeader: fuse.InHeader{NodeId: x.node}}, &oo); s != fuse.OK {
+			return fmt.Errorf("Open = %v", s)
+		}
+		x.fhs[k] = oo.Fh
+	}
+	return nil
 }
 
 func (x *c10Run) fail(tok int, cls, what string) {
@@ -237,7 +249,7 @@ func (x *c10Run) exec(tok, k int, q c10Req) (ok bool) {
 	case err == io.EOF && e1 > e0 && (q.off < 0 || int64(n) != want || n >= q.ln):
 		x.fail(tok, "sparse/store-eof-taken-for-end-of-file", fmt.Sprintf("ReadAt(len=%d, off=%d) returned (%d, io.EOF) because the store failed with io.EOF: the caller sees the end of the file, the blob has %d more bytes there", q.ln, q.off, n, want))
 	case err != nil && err != io.EOF:
-		if q.off >= 0 && f1 == f0 {
+		if q.off >= 0 && f1 == f0 && !x.unlinked {
 			x.fail(tok, "sparse/error-with-healthy-store", fmt.Sprintf("ReadAt(len=%d, off=%d) returned %v although the store did not fail", q.ln, q.off, err))
 		}
 		if n != 0 && (q.off < 0 || q.off+int64(n) > L || !bytes.Equal(buf[:n], x.blob[q.off:q.off+int64(n)])) {
@@ -249,10 +261,12 @@ func (x *c10Run) exec(tok, k int, q c10Req) (ok bool) {
 		cls := "sparse/stale-zeros"
 		x.mu.Lock()
 		if x.loadedStale {
-			cls = "sparse/stale-state-after-cache-loss"
+			cls = x.staleClass
 		}
 		x.mu.Unlock()
-		if int64(n) != want {
+		if int64(n) > want {
+			cls = "sparse/read-past-end"
+		} else if int64(n) != want {
 			cls = "sparse/short-read"
 		}
 		x.fail(tok, cls, fmt.Sprintf("ReadAt(len=%d, off=%d) reported success (%v) with %d bytes that are not blob[%d:%d]", q.ln, q.off, err, n, q.off, q.off+want))
@@ -303,9 +317,15 @@ func c10Bits(b []byte, n int) string {
 
 func (x *c10Run) restart(tok int, t string) error {
 	parts := strings.Split(t, ":")
+	failKind := "" // Y:<cache>:<m|l>: a start-up with a separate init file that is missing (m) or has the wrong length (l)
+	if parts[0] == "Y" && len(parts) == 3 {
+		failKind = parts[2]
+		parts = []string{"X", "1", parts[1], "0"}
+	}
 	if len(parts) != 4 {
 		return fmt.Errorf("bad restart token %q", t)
 	}
+	x.down, x.unlinked = false, false
 	x.mu.Lock()
 	for k, h := range x.handles { // handles of goroutines that were killed while blocked are abandoned, not closed
 		if !x.abandoned[k] {
@@ -347,8 +367,19 @@ func (x *c10Run) restart(tok int, t string) error {
 	}
 	if haveState && lost {
 		x.staleState = true
+		x.staleClass = "sparse/stale-state-after-cache-loss"
+		if failKind != "" {
+			x.staleClass = "sparse/stale-state-after-failed-startup"
+		}
 	}
 	opt := desync.SparseFileOptions{StateSaveFile: x.state}
+	switch failKind {
+	case "m":
+		opt.StateInitFile = filepath.Join(x.dir, "no-such-init-state")
+	case "l":
+		opt.StateInitFile = filepath.Join(x.dir, "init-state-of-another-index")
+		os.WriteFile(opt.StateInitFile, bytes.Repeat([]byte{0xff}, (len(x.idx.Chunks)+7)/8+1), 0644)
+	}
 	if parts[3] == "1" && haveState && parts[1] == "1" {
 		opt.StateInitFile = x.state
 		opt.StateInitConcurrency = 2
@@ -374,6 +405,13 @@ func (x *c10Run) restart(tok int, t string) error {
 	x.bootHold(true)
 	err := x.start(opt)
 	x.bootHold(false)
+	if failKind != "" && !stateUsed {
+		if err == nil {
+			x.fail(tok, "sparse/startup-accepts-bad-init-state", "NewSparseFile succeeded although the init state file is "+map[string]string{"m": "missing", "l": "of the wrong length"}[failKind])
+		}
+		x.down = true // there is no loader until the next start
+		return nil
+	}
 	if err != nil {
 		return fmt.Errorf("NewSparseFile: %v", err)
 	}
@@ -463,7 +501,7 @@ func c10Run1(a vh.Args, c *c10Case) (obs string, x *c10Run, err error) {
 		}
 		for ti, t := range c.Script {
 			switch {
-			case t[0] == 'X':
+			case t[0] == 'X' || t[0] == 'Y':
 				// a restart is a kill: a goroutine parked at the yield point never continues, one blocked behind it neither
 				hookMu.Lock()
 				armed = false
@@ -484,9 +522,18 @@ func c10Run1(a vh.Args, c *c10Case) (obs string, x *c10Run, err error) {
 			case t == "DA":
 				x.waitPreload()
 				continue
+			case t == "K": // somebody unlinks the cache file under the running loader; every goroutine already has its handle
+				if !x.crashed && !x.down {
+					for k := 0; k < 4; k++ {
+						x.open(k)
+					}
+					os.Remove(x.cache)
+					x.unlinked = true
+				}
+				continue
 			}
 			x.mu.Lock()
-			crashed := x.crashed
+			crashed := x.crashed || x.down
 			x.mu.Unlock()
 			if crashed {
 				continue
@@ -605,6 +652,9 @@ func c10Run1(a vh.Args, c *c10Case) (obs string, x *c10Run, err error) {
 		saved = c10Bits(b, len(idx.Chunks))
 	}
 	file, _ := os.ReadFile(x.cache)
+	if x.unlinked {
+		file = []byte("unlinked")
+	}
 	cr := 0
 	if x.crashed {
 		cr = 1
@@ -644,8 +694,13 @@ func c10Check(a vh.Args, o *vh.Oracle, r *vh.Result, c *c10Case) error {
 	r.Dist("tokens:" + bucket(len(c.Script)))
 	for _, t := range c.Script {
 		switch {
+		case t == "K" || t == "DA":
 		case t[0] == 'X':
 			r.Dist("restart:" + t[2:])
+		case t[0] == 'Y':
+			r.Dist("failed-startup:" + t[2:])
+		case t == "K":
+			r.Dist("op:cache-unlinked")
 		case strings.HasSuffix(t, ":S"):
 			r.Dist("op:writestate")
 		case t[0] == 'Q':
@@ -671,15 +726,17 @@ func c10Check(a vh.Args, o *vh.Oracle, r *vh.Result, c *c10Case) error {
 	if o != nil && c.Digest == "sha256" {
 		cc := &c09Case{Digest: c.Digest, Max: c.Max, BlobHex: c.BlobHex, Sizes: c.Sizes, Missing: c.Missing, Faults: c.Faults}
 		_, _, _, rows, tab := c09Build(cc)
-		script := strings.Join(c.Script, ",")
-		ans, err := o.Call("c10.run", strconv.Itoa(c.Max), rows, tab, c09FaultArg(cc), strings.ReplaceAll(script, "B", "D"))
+		ans, err := o.Call("c10.run", strconv.Itoa(c.Max), rows, tab, c09FaultArg(cc), strings.ReplaceAll(c10OracleScript(c.Script), "B", "D"))
 		if err != nil {
 			return err
 		}
 		c.Model = ans
 		r.Corr()
 		pa := c10Project(ans)
-		if c.Kind == "mount" {
+		if strings.Contains(obs, ";file="+vh.Hex([]byte("unlinked"))+";") { // the path is gone: the content cannot be read back
+			pa = regexp.MustCompile(`;file=[0-9a-f-]+;`).ReplaceAllString(pa, ";file="+vh.Hex([]byte("unlinked"))+";")
+		}
+		if strings.HasPrefix(c.Kind, "mount") {
 			pa = c10EIO.ReplaceAllString(pa, "=E:eio")
 		}
 		if pa != obs {
@@ -690,6 +747,39 @@ func c10Check(a vh.Args, o *vh.Oracle, r *vh.Result, c *c10Case) error {
 }
 
 var c10EIO = regexp.MustCompile(`=E:[a-z0-9-]+`)
+
+// c10OracleScript translates the script for the model: a start-up that fails late (Y:<cache>:l) is the label
+// LFailedStart; one that fails early (Y:<cache>:m) has changed nothing but what the environment did to the cache file,
+// which the next start meets instead: it is folded into that start's cache mode.  Nothing runs between a failed
+// start-up and the next start.
+func c10OracleScript(script []string) string {
+	var out []string
+	down, pending := false, ""
+	for _, t := range script {
+		switch {
+		case t[0] == 'Y':
+			p := strings.Split(t, ":")
+			down = true
+			if p[2] == "l" {
+				out = append(out, "Y:"+p[1])
+				pending = ""
+			} else if p[1] != "K" {
+				pending = p[1]
+			}
+		case t[0] == 'X':
+			p := strings.Split(t, ":")
+			if pending != "" && p[2] == "K" {
+				p[2] = pending
+			}
+			pending, down = "", false
+			out = append(out, strings.Join(p, ":"))
+		case down:
+		default:
+			out = append(out, t)
+		}
+	}
+	return strings.Join(out, ",")
+}
 
 func c10Diff(m, g string) string {
 	ms, gs := strings.Split(m, ";"), strings.Split(g, ";")
@@ -879,6 +969,59 @@ func c10GenReread(rng *vh.Rand, c *c10Case) {
 	c.Script = append(c.Script, tok, "D0")
 }
 
+// a start-up that fails in between: populate + save; the cache file is lost or resized; the next start-up returns an
+// error (its init state file is missing, or is not for this index); the start after that finds state + cache
+func c10GenFailedStart(rng *vh.Rand, c *c10Case) {
+	L := 0
+	for _, s := range c.Sizes {
+		L += s
+	}
+	for i := 0; i < rng.Intn(4); i++ {
+		c.Script = append(c.Script, c10ReadTok(rng, 0, c.Sizes, c.Max), "D0")
+	}
+	c.Script = append(c.Script, fmt.Sprintf("Q0:R:0:%d", L), "D0", "Q0:S", "D0")
+	lose := "A"
+	if rng.Bool() {
+		k := rng.Intn(L + 3)
+		if k == L {
+			k = L + 1
+		}
+		lose = fmt.Sprintf("R%d", k)
+	}
+	c.Script = append(c.Script, "Y:"+lose+":"+[]string{"m", "l"}[rng.Intn(2)])
+	if rng.Bool() { // nothing is served by a loader that failed to start
+		c.Script = append(c.Script, c10ReadTok(rng, 1, c.Sizes, c.Max), "D1")
+	}
+	c.Script = append(c.Script, []string{"X:1:K:0", "X:1:K:1", "X:1:A:0"}[rng.Intn(3)], "DA", fmt.Sprintf("Q2:R:0:%d", L), "D2")
+}
+
+// the cache file is unlinked under the running loader: ranges already populated are still served from the open
+// handles, a load cannot write (its read fails), nothing may be served from a file re-created at the path
+func c10GenUnlink(rng *vh.Rand, c *c10Case) {
+	L := 0
+	for _, s := range c.Sizes {
+		L += s
+	}
+	for i := 0; i < rng.Intn(4); i++ {
+		c.Script = append(c.Script, c10ReadTok(rng, rng.Intn(4), c.Sizes, c.Max))
+		c.Script = append(c.Script, "D"+c.Script[len(c.Script)-1][1:2])
+	}
+	c.Script = append(c.Script, "K")
+	for i := 0; i < 2+rng.Intn(5); i++ {
+		c.Script = append(c.Script, c10ReadTok(rng, rng.Intn(4), c.Sizes, c.Max))
+		c.Script = append(c.Script, "D"+c.Script[len(c.Script)-1][1:2])
+		if rng.Chance(1, 3) { // the same range again
+			c.Script = append(c.Script, c.Script[len(c.Script)-2], c.Script[len(c.Script)-1])
+		}
+	}
+	if rng.Bool() {
+		c.Script = append(c.Script, "Q0:S", "D0")
+	}
+	if rng.Bool() {
+		c.Script = append(c.Script, []string{"X:1:K:0", "X:1:A:1", "X:0:K:0"}[rng.Intn(3)], "DA", fmt.Sprintf("Q2:R:0:%d", L), "D2")
+	}
+}
+
 // two readers of the same unloaded chunk: the first is held inside GetChunk (gated store) while the second arrives and
 // waits for the chunk's mutex; then the first one's fetch fails.  The waiter must load the chunk itself (or fail).
 func c10GenGate(rng *vh.Rand, c *c10Case) {
@@ -957,6 +1100,29 @@ func runC10(a vh.Args, o *vh.Oracle, r *vh.Result) error {
 				r.Note("run aborted after a hang")
 				return nil
 			}
+			return err
+		}
+	}
+	for i := 0; i < nConc/3; i++ {
+		c := mk("unlink")
+		if len(c.Sizes) == 0 {
+			continue
+		}
+		if i%3 == 0 {
+			c.Kind = "mount-unlink"
+		}
+		c10GenUnlink(rng, c)
+		if err := c10Check(a, o, r, c); err != nil {
+			return err
+		}
+	}
+	for i := 0; i < nConc/5; i++ {
+		c := mk("failed-start")
+		if len(c.Sizes) == 0 {
+			continue
+		}
+		c10GenFailedStart(rng, c)
+		if err := c10Check(a, o, r, c); err != nil {
 			return err
 		}
 	}
